@@ -283,7 +283,7 @@ func cmdCheck(args []string) int {
 		fmt.Fprintln(os.Stderr, "CHECK BROKEN: no function under verification for", *prop)
 		return 2
 	}
-	timeout := 10
+	timeout := 20
 	agree := false
 	if *tier == "thorough" {
 		timeout, agree = 60, true
@@ -294,6 +294,7 @@ func cmdCheck(args []string) int {
 	var gens []*Gen
 	var genErrs []string
 	usedAssumed := map[string]bool{}
+	freeUsed := map[string]bool{}
 	inferred := map[string]bool{}
 	uncontr := map[string]bool{}
 	var outOfSub []string
@@ -321,6 +322,9 @@ func cmdCheck(args []string) int {
 			continue
 		}
 		gens = append(gens, g)
+		for k := range g.freeUsed {
+			freeUsed[k] = true
+		}
 		for k := range g.usedCtr {
 			if ctr := c.S.Contracts[k]; ctr != nil && ctr.Assumed {
 				usedAssumed[k] = true
@@ -577,6 +581,9 @@ func cmdCheck(args []string) int {
 	}
 	for _, k := range sortedKeys(uncontr) {
 		trusted = append(trusted, "external call without contract (results arbitrary, repo heap preserved, no panic): "+k)
+	}
+	for _, k := range sortedKeys(freeUsed) {
+		trusted = append(trusted, "free ensures (assumed at call sites, not checked in the function): "+k)
 	}
 	for _, u := range cfg.Uses {
 		trusted = append(trusted, "imported clauses: every requires/ensures/invariant tagged "+u+" is assumed here; those obligations are discharged by the check of "+u+" (which must pass for this result to stand)")
